@@ -40,8 +40,16 @@ def gen_history(rng: random.Random) -> dict:
             releases[f'{project}/{release}'] = spec
     ops = []
     for _ in range(rng.randint(4, 10)):
-        kind = rng.choices(['train', 'load', 'restart', 'crash-train'], [4, 7, 2, 0.8])[0]
+        kind = rng.choices(['train', 'load', 'restart', 'crash-train', 'session', 'duel'], [4, 7, 2, 0.8, 1.0, 0.6])[0]
         target = rng.choice(sorted(releases))
+        if kind == 'duel':
+            ops.append({'op': 'duel', 'target': target, 'mode': rng.choice(MODES[:2]), 'at': round(rng.random(), 3),
+                        'explicit': rng.random() < 0.5})
+            continue
+        if kind == 'session':
+            ops.append({'op': 'session', 'target': target, 'gen': rng.randint(0, 5),
+                        'then': rng.choice(['apply', 'perftrack'])})
+            continue
         if kind == 'train':
             ops.append({'op': 'train', 'target': target,
                         'interleave': round(rng.random(), 3) if rng.random() < 0.2 else None})
@@ -157,9 +165,10 @@ class Run:
         if result['nstates'] != len(self.model[target][0].get('__nstates__', [None] * result['nstates'])):
             pass
 
-    def check_train(self, where: str, target: str, result: dict, token: int, hp=None) -> dict:
+    def check_train(self, where: str, target: str, result: dict, token: int, hp=None, previous=None) -> dict:
         hp = self.hp if hp is None else hp
-        previous = self.model[target][-1] if self.model[target] else {}
+        if previous is None:
+            previous = self.model[target][-1] if self.model[target] else {}
         persistent = set(self.persistent(target))
         trainonly = set(lc.spec_names(self.history['releases'][target], ('T',)))
         new: dict = {}
@@ -288,8 +297,47 @@ class Run:
             self.stats['op:train'] += 1
             self.events.append([kind, target, res.value['generation'], res.value['nstates']])
             return
+        if kind == 'duel':
+            self.duel(idx, op, target, project, release)
+            return
         gens = self.model[target]
         if not gens:
+            return
+        if kind == 'session':
+            # one instance pinned to an explicit generation serves two actions in a row: an incremental training (which
+            # commits a new generation) and then a load - which still is a load of the pinned generation
+            generation = 1 + op['gen'] % len(gens)
+            self.ntok += 1
+            token = self.ntok
+            where = (f'op{idx} session on ONE instance of {target} pinned to generation {generation}: train (token '
+                     f'{token}) then {op["then"]} (incarnation {self.nchild + (0 if self.child and self.child.alive else 1)})')
+            res = self.incarnation().call('session', {'project': project, 'release': release, 'generation': generation,
+                                                      'token': token, 'then': op['then'], 'token2': 900 + idx})
+            if not res.ok:
+                raise base.Violation('action-failed', f'{where}: {res.value}', mode='train')
+            new = self.check_train(where, target, res.value['train'], token, previous=gens[generation - 1])
+            if res.value['train']['generation'] != len(gens) + 1:
+                raise base.Violation('generation-number', f'{where}: committed generation '
+                                                          f'{res.value["train"]["generation"]}', mode='train')
+            self.model[target].append(new)
+            self.nstates[target] = res.value['train']['nstates']
+            self.check_load(where + ' [train-mode apply]', target, len(self.model[target]), res.value['train'], 'train')
+            mode = 'apply' if op['then'] == 'apply' else 'perftrack'
+            try:
+                if res.value['load']['generation'] != generation:
+                    raise base.Violation('wrong-generation', f'{where}: the second action loaded generation '
+                                                             f'{res.value["load"]["generation"]}', mode=mode)
+                self.check_load(where + ' [second action]', target, generation, res.value['load'], mode)
+            except base.Violation as err:
+                vio = {**err.as_dict(), 'unanchored': lc.unanchored(self.history['releases'][target])}
+                finding = match_finding(vio, self.findings)
+                if finding is None:
+                    raise
+                self.known.setdefault(finding['id'], err.detail)
+                self.stats[f'known:{finding["id"]}'] += 1
+                return
+            self.stats['op:session'] += 1
+            self.events.append([kind, target, generation, res.value['load']['nstates']])
             return
         if op.get('ghost'):
             # an explicit generation that was never committed: the action must be refused, never run the actors bare
@@ -382,6 +430,98 @@ class Run:
             return
         self.stats[f'op:{kind}'] += 1
         self.events.append([kind, target, generation, res.value['nstates']])
+
+    def duel(self, idx: int, op: dict, target: str, project: str, release: str) -> None:
+        """Three processes: trainer T2 is parked inside its commit (generation number N already taken from the
+        listing), trainer T1 trains and commits N, a reader starts loading N and is parked between two state loads,
+        T2 finishes its commit of the same N, the reader continues. Whatever the registry makes of the two commits,
+        the reader's actors must all get the states of ONE training run."""
+        gens = self.model[target]
+        ngen = len(gens) + 1
+        self.ntok += 2
+        tok1, tok2 = self.ntok - 1, self.ntok
+        hp1, hp2 = 30 + idx, 40 + idx
+        prefix = f'registry/{project}/{release}/{ngen}/'
+        snap = self.box.snapshot()
+        dry = boxmod.Child(self.box.root, OPTABLE, self.seed * 7 + idx, env={'LC_LOG': self.logfile + '.dry', 'LC_HP': '0'})
+        res = dry.call('train', {'project': project, 'release': release, 'token': tok2})
+        dry.close()
+        self.box.restore(snap)
+        self.box.drop(snap)
+        first = next((o[0] for o in (res.oplog or []) if str(o[2]).startswith(prefix) or str(o[2]) + '/' == prefix), None)
+        if not res.ok or first is None:
+            return
+        where = (f'op{idx} duel on {target}: T2 (token {tok2}) parked inside its commit of generation {ngen}, T1 (token '
+                 f'{tok1}) commits {ngen}, a reader ({op["mode"]}) parked between two state loads, T2 commits, reader goes on')
+        t2 = boxmod.Child(self.box.root, OPTABLE, self.seed * 79 + idx, env={'LC_LOG': self.logfile + '.t2', 'LC_HP': str(hp2)})
+        reader = None
+        try:
+            r2 = t2.call('train', {'project': project, 'release': release, 'token': tok2}, None,
+                         {'on': 'mutation', 'at': first})
+            if r2.status != 'paused':
+                return
+            with boxmod.Child(self.box.root, OPTABLE, self.seed * 83 + idx,
+                              env={'LC_LOG': self.logfile + '.t1', 'LC_HP': str(hp1)}) as t1:
+                r1 = t1.call('train', {'project': project, 'release': release, 'token': tok1})
+            if not r1.ok:
+                raise base.Violation('action-failed', f'{where}: T1: {r1.value}', mode='train')
+            new1 = self.check_train(where + ' [T1]', target, r1.value, tok1, hp=hp1)
+            nstates = r1.value['nstates']
+            hp_reader = 60 + idx
+            reader = boxmod.Child(self.box.root, OPTABLE, self.seed * 89 + idx,
+                                  env={'LC_LOG': self.logfile + '.rd', 'LC_HP': str(hp_reader)})
+            rr = reader.call(op['mode'], {'project': project, 'release': release,
+                                          'generation': ngen if op['explicit'] else None, 'token': 900 + idx}, None,
+                             {'at': 1 + int(op['at'] * nstates), 'match': ['.bin']})
+            parked = rr.status == 'paused'
+            r2 = t2.resume()
+            if not r2.ok:
+                raise base.Violation('action-failed', f'{where}: T2: {r2.value}', mode='train')
+            new2 = self.check_train(where + ' [T2]', target, r2.value, tok2, hp=hp2)
+            if parked:
+                rr = reader.resume()
+            self.stats['fault:generation-committed-twice-under-a-parked-reader'] += 1 if parked else 0
+            if not rr.ok:
+                raise base.Violation('action-failed', f'{where}: reader: {rr.value}', mode=op['mode'])
+            # the registry's listing decides what generation N (and possibly N+1) now is
+            probe = boxmod.Child(self.box.root, OPTABLE, self.seed * 97 + idx, env={'LC_LOG': self.logfile})
+            listing = probe.call('generations', {'project': project, 'release': release}).value
+            probe.close()
+            verdicts = []
+            for cand in (new1, new2):
+                saved = list(gens)
+                self.model[target] = saved + [cand]
+                saved_sigs = dict(self.sigs)
+                self.sigs.pop((target, ngen), None)
+                try:
+                    self.check_load(where + ' [reader]', target, ngen, rr.value, op['mode'], hp=hp_reader)
+                    verdicts.append(None)
+                except base.Violation as err:
+                    verdicts.append(err)
+                finally:
+                    self.model[target] = saved
+                    self.sigs = saved_sigs
+            if all(v is not None for v in verdicts):
+                chains = {r['actor']: r['state'] and r['state']['chain'] for r in rr.value['log']
+                          if r.get('event') == 'apply' and r['actor'] in set(self.persistent(target))}
+                raise base.Violation('mixed-generations', f'{where}: the reader\'s actors received {chains}; T1 trained '
+                                                          f'{new1}, T2 trained {new2} - neither run as a whole '
+                                                          f'({verdicts[0].detail[-160:]})', mode=op['mode'])
+            # continue the history with what is listed: one generation N holding the later commit (T2's) - or two
+            if listing == list(range(1, ngen + 1)):
+                self.model[target] = list(gens) + [new2]
+            elif listing == list(range(1, ngen + 2)):
+                self.model[target] = list(gens) + [new1, new2]
+            else:
+                raise base.Violation('registry-torn', f'{where}: generations afterwards: {listing}', mode='train')
+            self.sigs.pop((target, ngen), None)
+            self.sigs.pop((target, ngen + 1), None)
+            self.nstates[target] = nstates
+            self.stats['op:duel'] += 1
+        finally:
+            t2.close()
+            if reader is not None:
+                reader.close()
 
     def run(self) -> None:
         self.setup()
